@@ -836,8 +836,82 @@ func (c *Ctx) dsConvergeFrom(cl *dsCluster) {
 	c.dsConvergeCase(st, 8*(st.Replicas+4)+40)
 }
 
+// dsSweep: exhaustive small scope (bounded only to find a witness; the theorems are unbounded):
+// every replicas ≤ maxR, partition, fencepost pair, new RS (absent / every size, unavailable or available)
+// and up to maxOlds old RSs of every size with no / all / one-too-many (stale) available pods.
+func (c *Ctx) dsSweep(maxR, maxOlds int) {
+	fences := [][2]int{{0, 1}, {1, 0}, {1, 1}}
+	for R := 0; R <= maxR; R++ {
+		parts := []intstr.IntOrString{}
+		for p := 0; p <= R; p++ {
+			parts = append(parts, intstr.FromInt(p))
+		}
+		parts = append(parts, pct(50), pct(100))
+		type sz struct{ spec, avail int }
+		oldOpts := []sz{}
+		for sp := 0; sp <= R+1; sp++ {
+			oldOpts = append(oldOpts, sz{sp, 0}, sz{sp, sp + 1})
+			if sp > 0 {
+				oldOpts = append(oldOpts, sz{sp, sp})
+			}
+		}
+		newOpts := []*sz{nil}
+		for sp := 0; sp <= R+1; sp++ {
+			newOpts = append(newOpts, &sz{sp, 0})
+			if sp > 0 {
+				newOpts = append(newOpts, &sz{sp, sp})
+			}
+		}
+		var rec func(olds []sz)
+		emit := func(olds []sz) {
+			for _, part := range parts {
+				for _, f := range fences {
+					for _, nw := range newOpts {
+						s := &dsState{Replicas: R, Rolling: true, Partition: iosJ(part),
+							Surge: iosJ(intstr.FromInt(f[0])), Unavailable: iosJ(intstr.FromInt(f[1])), Olds: []dsRS{}}
+						for i, o := range olds {
+							pods := o.spec
+							if o.avail > pods {
+								pods = o.avail
+							}
+							s.Olds = append(s.Olds, dsRS{Name: fmt.Sprintf("rs-%d", i), Created: i, Revision: i + 1, Spec: o.spec,
+								Pods: pods, Avail: o.avail, Desired: intp(R), Max: intp(R + f[0])})
+							s.StatusReplicas += pods
+						}
+						if nw != nil {
+							s.New = &dsRS{Name: "rs-n", Created: len(olds), Revision: len(olds) + 1, Spec: nw.spec, Pods: nw.spec,
+								Avail: nw.avail, Desired: intp(R), Max: intp(R + f[0])}
+							s.StatusReplicas += nw.spec
+						}
+						s.Now = len(olds) + 2
+						c.dsSyncCase(s)
+					}
+				}
+			}
+		}
+		rec = func(olds []sz) {
+			emit(olds)
+			if len(olds) == maxOlds {
+				return
+			}
+			for _, o := range oldOpts {
+				rec(append(append([]sz{}, olds...), o))
+			}
+		}
+		rec(nil)
+	}
+}
+
 func runDepSync(c *Ctx) {
 	n := c.N
+	// 0. exhaustive small scope
+	if c.Thorough() {
+		c.dsSweep(3, 2)
+		c.dsSweep(2, 3) // three active old RSs: FilterActiveReplicaSets returns a slice with spare capacity
+	} else {
+		c.dsSweep(1, 2)
+		c.dsSweep(2, 1)
+	}
 	// 1. handpicked rows of the package's own TestSyncDeployment table
 	for _, s := range dsTableStates() {
 		c.dsSyncCase(s)
